@@ -40,6 +40,13 @@ func c16Gen(seed uint64, tier string) any {
 	cfg.CoC, cfg.WoD, cfg.Fate, cfg.DC = bits&1 != 0, bits&2 != 0, bits&4 != 0, bits&8 != 0
 	cfg.NoStmts, cfg.NoND, cfg.NoBitwise = r.Chance(1, 3), r.Chance(1, 3), r.Chance(1, 3)
 	cfg = cfg.Tame()
+	sideFam := ""
+	if r.Chance(1, 4) && !cfg.NoND {
+		// the default-sides text spelled like a dice family: compiled on first use of a bare 'd',
+		// possibly inside an input that carries a macro
+		sideFam = Pick(r, []string{"coc", "fate", "wod", "dc"})
+		cfg.DefaultSide = Pick(r, map[string][]string{"coc": {"b2", "p1 + 5", "b1 + 1"}, "fate": {"f + 10", "f"}, "wod": {"3a8 + 4", "2a9"}, "dc": {"2c5 + 3", "1c7"}}[sideFam])
+	}
 	sc := &C16Scenario{GlobalSeed: r.U64(), Cfg: cfg}
 	fams := []string{"coc", "wod", "dc", "fate", "stmt", "ndice", "bit"}
 	macroNames := map[string]string{"coc": "coc", "wod": "wod", "dc": "doublecross", "fate": "fate"}
@@ -73,6 +80,10 @@ func c16Gen(seed uint64, tier string) any {
 		default:
 			h = g.Program(r.Range(1, 2))
 		}
+		if sideFam != "" && r.Chance(1, 2) {
+			h = "// #EnableDice " + macroNames[sideFam] + " true\n" + Pick(r, []string{"2d", "d + 1", "d"})
+			fam = sideFam
+		}
 		sc.Cmds = append(sc.Cmds, Cmd{Kind: "run", Src: h})
 		sc.Probe = append(sc.Probe, false)
 		// probe: macro-free
@@ -90,6 +101,9 @@ func c16Gen(seed uint64, tier string) any {
 		}
 		if strings.Contains(p, "#EnableDice") {
 			p = "1"
+		}
+		if sideFam != "" && r.Chance(1, 2) {
+			p = Pick(r, []string{"2d", "d + 1", "d", "(d)d"})
 		}
 		kind := "run"
 		if r.Chance(1, 8) {
